@@ -22,7 +22,8 @@ TRUSTED = CC.TRUSTED_COMMON + [
 ASSUMPTIONS = [
     "WFHist (the quantifier's restriction), enforced by the generator: pointer records have an owner name spelled exactly as a browsed type "
     "and class IN; the browsed types (_x._tcp.local., _y._udp.local., _Zed._tcp.local. -- the last one with an upper-case letter) are not nested; one datagram never carries two spellings of one "
-    "instance name; a browser is only created when no expired-but-unpurged pointer record of its types is cached (a purge is issued first)",
+    "instance name; browsers are created at any time (since the D23 repair the creation purges expired records first), with a frozen clock "
+    "during the creation (the two-readings window is the known finding D23b)",
     "instance names are specific to their type, and SRV/TXT/address owner names have one spelling (keeps callback order independent of set iteration order)",
 ]
 
@@ -158,7 +159,9 @@ def expired_ptr_cached(ref, types, now):
 
 
 def well_formed(ops):
-    """WFHist on a history (used while shrinking): no browser is created while the reference holds an expired pointer record of its types"""
+    """WFHist on a history (used while shrinking).  Since the D23 repair (the creation purges expired records first) browsers may be
+    created at any time; what stays outside the quantifier is a creation during which the clock ticks between the purge's reading and
+    the replay's reading while a pointer record of the browser's types runs out exactly in between (D23b)"""
     ref = CC.Ref()
     for op in ops:
         if op[0] == "D":
@@ -167,8 +170,10 @@ def well_formed(ops):
             ref.datagram(op[1], op[2])
         elif op[0] == "X":
             ref.purge(op[1])
-        elif op[0] == "BA" and expired_ptr_cached(ref, op[3], op[2]):
-            return False
+        elif op[0] == "BA":
+            ref.purge(op[2])
+            if len(op) > 4 and op[4] and expired_ptr_cached(ref, op[3], op[2] + 1):
+                return False
     return True
 
 
@@ -195,9 +200,9 @@ def gen_history(rng, depth, wf=True):
         if bid in active:
             return
         types = rng.choice(BROWSER_TYPES)
-        if wf and expired_ptr_cached(ref, types, now):
-            ops.append(["X", now])
-            ref.purge(now)
+        if wf and expired_ptr_cached(ref, types, now) and rng.random() < 0.4:
+            ops.append(["X", now])          # (before the D23 repair this purge was required to stay inside the quantifier)
+        ref.purge(now)                      # the creation itself purges
         ops.append(["BA", bid, now, list(types)])
         active[bid] = types
 
@@ -273,7 +278,8 @@ def exh_histories(actions, gaps, depth, t1=None, t2=None):
 
 
 # ------------------------------------------------------------------------------------------
-# D23 (outside C04's quantifier: "browsers created while no expired-but-unpurged pointer record of their types is cached")
+# D23 (repaired in /repo 1a6b142: the creation purges expired records first; the family stays as a regression input.  Before the repair
+# these histories were outside C04's quantifier: "browsers created while no expired-but-unpurged pointer record of their types is cached")
 
 D23_SIG = "C04:created-over-expired-unpurged:never-added-after-refresh"
 
@@ -321,7 +327,34 @@ def oracle_d23(probes, ops, obs, res):
 
 
 def d23_valid(ops):
-    return (not well_formed(ops)) and any(o[0] == "BA" for o in ops)
+    return any(o[0] == "BA" for o in ops)
+
+
+# D23b: the creation reads the clock twice (purge in async_add_listener, replay in _async_update_matching_records); a pointer record that
+# runs out between the two readings is neither purged nor replayed, and is never Added afterwards.  Outside the quantifier (at the replay's
+# reading it is an expired-but-unpurged record); known finding.
+D23B_SIG = "C04:created-between-two-clock-readings:never-added-after-refresh"
+
+
+def d23b_histories():
+    for tpl, types in ((VOCAB[0], [TX]), (VOCAB[14], [TZ])):
+        for ttl in (120, 4500):
+            eff = max(ttl, 1125)
+            t0 = CC.T0 + 800
+            exp = t0 + 1000 * eff
+            yield [["D", t0, [CC.inst(tpl, ttl, 0)], []],
+                   ["BA", 1, exp - 1, list(types), 1],          # purge reads exp-1, replay reads exp
+                   ["D", exp + 100, [CC.inst(tpl, 4500, 0)], []],
+                   ["X", (exp // 10000 + 1) * 10000]]
+
+
+def oracle_d23b(probes, ops, obs, res):
+    return [(idx, D23B_SIG, "the clock ticked between the purge and the replay of a browser's creation while a pointer record ran out: " + what)
+            for idx, sig, what in oracle_d23(probes, ops, obs, res) if sig == D23_SIG]
+
+
+def d23b_valid(ops):
+    return any(o[0] == "BA" and len(o) > 4 and o[4] for o in ops)
 
 
 def run(ctx):
@@ -356,11 +389,17 @@ def run(ctx):
             break
     res.exhaustive = complete
 
-    # D23: browser creation between a pointer's expiry and the purge, then a fresh announcement (outside the quantifier; known finding)
+    # D23 (repaired): browser creation between a pointer's expiry and the purge, then a fresh announcement -- regression inputs
     run_d23 = CC.Runner(res, "C04", ctx, oracle_d23, valid=d23_valid)
     for ops in d23_histories():
         run_d23.add("d23-created-over-expired-unpurged", probes, ops)
+        run_.add("d23-regression", probes, ops)          # and the plain C04 predicates: inside the quantifier now
     run_d23.finish()
+    # D23b: the two clock readings of a creation (known finding)
+    run_d23b = CC.Runner(res, "C04", ctx, oracle_d23b, valid=d23b_valid)
+    for ops in d23b_histories():
+        run_d23b.add("d23b-clock-ticks-during-creation", probes, ops)
+    run_d23b.finish()
 
     # outside the quantifier: model correspondence only (exercises the Added > Removed > Updated precedence, which WFHist makes unreachable)
     probes_w = CC.vocab_probes(VOCAB_WILD, [TX, TY, TZ])
